@@ -85,6 +85,14 @@ func casesC14(g *Gen) []*Case {
 			addRepeated("case_variant_keys", newTree(), nil, opEvs(src, gvMap("obj", obj)), src)
 		}
 	}
+	// keys that are equal up to leading zeros, digit runs, separators: still one fixed order
+	{
+		obj := gvMap("a1", gvInt(1), "a01", gvInt(2), "a001", gvInt(3), "a10", gvInt(4), "a2", gvInt(5), "x0", gvInt(6), "x00", gvInt(7), "v1_0", gvInt(8), "v01_0", gvInt(9), "a", gvInt(0))
+		for _, src := range []string{"{{ obj }}", "@dump(obj)", "{{ {a1: 1, a01: 2, a001: 3, a10: 4, a2: 5} }}", "{{ {\"7\": 1, \"07\": 2, \"007\": 3, \"70\": 4, \" 7\": 5} }}",
+			"@dump({\"1.0\": 1, \"1.00\": 2, \"01.0\": 3})", "@each(o in [obj, {x0: 1, x00: 2}])[{{ o }}]@end"} {
+			addRepeated("numeric_variant_keys", newTree(), nil, opEvs(src, gvMap("obj", obj)), src)
+		}
+	}
 	// several unsupported values in the data at once
 	{
 		bad := gvMap("b", &GV{K: "O", Other: "chan"}, "a", &GV{K: "O", Other: "func"}, "c", &GV{K: "O", Other: "complex"}, "loop", gvInt(1))
@@ -202,6 +210,11 @@ func c16Tree() *Tree {
 	t.files["tpl/layouts/l.tw"] = "<L>@reserve(\"b\")</L>"
 	t.files["tpl/withlayout.tw"] = "@use(\"~l\")@insert(\"b\"){{ who }}@end"
 	t.files["files/f.tw"] = "file {{ who }}"
+	// templates whose only use of the data is in an unusual place
+	t.files["tpl/elseifdata.tw"] = "@if(false)a@elseif(who == \"Ann\")ann@else other@end"
+	t.files["tpl/components/c.tw"] = "<c>@slot</c>"
+	t.files["tpl/slotdata.tw"] = "@component(\"~c\")@slot@if(false)x@elseif(who == \"Ann\")A@else B@end@end@end"
+	t.files["tpl/ternarydata.tw"] = "{{ true ? (false ? 1 : who) : 2 }}"
 	return t
 }
 
@@ -214,6 +227,7 @@ func c16Ops() []string {
 		opResp("home", d1), opResp("bad", d1), opResp("missing", nil), opResp("read", nil), opResp("loops", nil),
 		opEvs("{{ total = 1 }}{{ total }}", nil), opEvs("[{{ total }}]", nil), opEvs("{{ who }}!", d1), opEvs("{{ 1 + }}", nil), opEvs("@each(x in xs){{ x }}@if(x == 2){{ nosuch }}@end@end", d1),
 		opEvf("files/f.tw", d1), opEvf("files/none.tw", nil),
+		opStr("elseifdata", d1), opStr("elseifdata", d2), opStr("slotdata", d1), opStr("slotdata", d2), opStr("ternarydata", d1), opStr("ternarydata", d2),
 	}
 }
 
@@ -221,9 +235,22 @@ func casesC16(g *Gen) []*Case {
 	var cs []*Case
 	ops := c16Ops()
 	cfgs := []string{opNew("tpl", ".tw", "", false), opNew("tpl", ".tw", "err", false), opNew("tpl", ".tw", "", true), opNew("./tpl/", ".tw", "nosuchpage", false)}
+	// two shapes: the operation issued first, then the history, then again (state that survives a
+	// reset still shows); and the history alone before it (otherwise the operation would itself be
+	// the first call of its name and hide a result remembered from the history)
+	var mk1 func(fam string, cfg string, hist []int, x int, first bool)
 	mk := func(fam string, cfg string, hist []int, x int) {
+		mk1(fam, cfg, hist, x, true)
+		if len(hist) > 0 {
+			mk1(fam, cfg, hist, x, false)
+		}
+	}
+	mk1 = func(fam string, cfg string, hist []int, x int, first bool) {
 		var seq []string
-		seq = append(seq, cfg, ops[x])
+		seq = append(seq, cfg)
+		if first {
+			seq = append(seq, ops[x])
+		}
 		var note []string
 		for _, h := range hist {
 			seq = append(seq, ops[h])
@@ -231,13 +258,13 @@ func casesC16(g *Gen) []*Case {
 		}
 		at := len(seq)
 		seq = append(seq, ops[x], opReset(), cfg, ops[x])
-		c := histCase(fam, c16Tree(), seq, "NewTemplate; the op; ops "+strings.Join(note, ",")+"; then op "+strconv.Itoa(x)+" = "+ops[x]+"; reset; NewTemplate; the same op")
+		c := histCase(fam, c16Tree(), seq, "NewTemplate; ops "+strings.Join(note, ",")+"; then op "+strconv.Itoa(x)+" = "+ops[x]+"; reset; NewTemplate; the same op")
 		c.Oracle = func(c *Case, impl string) string {
 			rs := results(impl)
 			if len(rs) != at+4 {
 				return "missing answers: " + clip(impl, 200)
 			}
-			if rs[at] != rs[1] {
+			if first && rs[at] != rs[1] {
 				return fmt.Sprintf("issued first the operation returned %s, after the history it returned %s", describe(rs[1]), describe(rs[at]))
 			}
 			if rs[at] != rs[at+3] {
@@ -295,6 +322,8 @@ func casesC17(g *Gen) []*Case {
 		t.files["tpl/slotfail.tw"] = "PARTIAL-MARK\n@component(\"comp\")@slot<{{ nosuchname }}>@end@end"
 		t.files["tpl/insertfail.tw"] = "@use(\"lay\")@insert(\"c\")PARTIAL-MARK\n\n{{ nosuchname }}@end"
 		t.files["tpl/argfail.tw"] = "PARTIAL-MARK @component(\"comp\", {a: nosuchname})"
+		t.files["tpl/loopok.tw"] = "@each(x in [1, 2])<{{ x }}>@end@for(i = 0; i < 2; i++)[{{ i }}]@end"
+		t.files["tpl/err.tw"] = "custom error page 50%@each(q in [1])@end{{ who = 5 }}"
 		return t
 	}
 	type page struct {
@@ -316,6 +345,9 @@ func casesC17(g *Gen) []*Case {
 		{"slotfail", false, "", "nosuchname", "2", "slotfail.tw"},
 		{"insertfail", false, "", "nosuchname", "3", "insertfail.tw"},
 		{"argfail", false, "", "nosuchname", "1", "argfail.tw"},
+		{"loopok", true, "<1><2>[0][1]", "", "", ""},
+		{"late", false, "", "nosuchname", "2", "late.tw"},
+		{"loopok", true, "<1><2>[0][1]", "", "", ""},
 	}
 	for _, debug := range []bool{false, true} {
 		for _, ep := range []string{"", "err", "nopage", "errfail"} {
@@ -640,6 +672,43 @@ func casesC20(g *Gen) []*Case {
 		c.Oracle = expectResults(map[int]func(string) string{1: wantOK("a, ***, c|a, ***, c|a, bad, c|3|1, 2")})
 		cs = append(cs, c)
 	}
+	// a function registered after a Template has already rendered is callable from its templates too
+	{
+		t := newTree()
+		t.files["tpl/home.tw"] = "home"
+		t.files["tpl/page.tw"] = `{{ "abc".late(1) }}`
+		t.files["tpl/page2.tw"] = `@each(x in [1, 2]){{ x.later() }}@end{{ "abc".late() }}`
+		ops := []string{opNew("tpl", ".tw", "", false), opStr("home", nil), opStr("page", nil), opReg("str", "late", 0), opStr("page", nil), opStr("page2", nil),
+			opReg("int", "later", 0), opStr("page2", nil), opEvs(`{{ 5.later(1) }}`, nil), opReg("str", "late", 1), opStr("page", nil)}
+		c := histCase("register_after_render", t, ops, "NewTemplate; String; Register; String of a page that calls it; Register; ...")
+		c.Oracle = expectResults(map[int]func(string) string{0: wantNewOK, 1: wantOK("home"), 2: wantErr("late"), 3: func(r string) string {
+			if r == "REGOK" {
+				return ""
+			}
+			return "registration must succeed: " + r
+		}, 4: wantOK("abc|i:1,"), 5: wantErr("later"), 7: wantOK("12abc|"), 8: wantOK("6"), 10: wantOK("abc|i:1,")})
+		cs = append(cs, c)
+	}
+	// the same call site evaluated many times (loops) with arguments that are literals holding the loop variable at any depth
+	{
+		ops := []string{opReg("str", "echo", 0), opReg("int", "cnt", 0), opReg("arr", "wrap", 0),
+			opEvs(`@each(x in [1, 2, 3]){{ "a".echo([[x]]) }};@end`, nil),
+			opEvs(`@each(x in [1, 2]){{ "a".echo({a: {b: x}}, [x], x, [[[x]], "k"]) }};@end`, nil),
+			opEvs(`@for(i = 0; i < 3; i++){{ "a".echo({ids: [i]}) }};@end`, nil),
+			opEvs(`@each(x in ["p", "qq"]){{ 1.cnt([[x.len()]]) }}{{ "a".echo([[x.len()]], {k: [x]}) }};@end`, nil),
+			opEvs(`@each(x in [1, 2]){{ [0].wrap([[x]], {a: {b: x}})[1][0][0] }}{{ [0].wrap({a: {b: x}})[1].a.b }};@end`, nil),
+			opEvs(`@each(x in [1, 2])@each(y in [3, 4]){{ "a".echo([[x, y]]) }};@end@end`, nil),
+			opEvs(`@each(x in [1, 2]){{ "a".echo([[1]], {a: {b: 2}}) }};@end`, nil)}
+		c := histCase("nested_literal_args_in_loops", newTree(), ops, "Register; custom calls inside loops with nested literal arguments")
+		c.Oracle = expectResults(map[int]func(string) string{3: wantOK("a|[[i:1,],],;a|[[i:2,],],;a|[[i:3,],],;"),
+			4: wantOK("a|{a={b=i:1,},},[i:1,],i:1,[[[i:1,],],s:k,],;a|{a={b=i:2,},},[i:2,],i:2,[[[i:2,],],s:k,],;"),
+			5: wantOK("a|{ids=[i:0,],},;a|{ids=[i:1,],},;a|{ids=[i:2,],},;"),
+			6: wantOK("2a|[[i:1,],],{k=[s:p,],},;2a|[[i:2,],],{k=[s:qq,],},;"),
+			7: wantOK("11;22;"),
+			8: wantOK("a|[[i:1,i:3,],],;a|[[i:1,i:4,],],;a|[[i:2,i:3,],],;a|[[i:2,i:4,],],;"),
+			9: wantOK("a|[[i:1,],],{a={b=i:2,},},;a|[[i:1,],],{a={b=i:2,},},;")})
+		cs = append(cs, c)
+	}
 	// a bool / int / float receiver from data, from a literal and from another custom function
 	{
 		ops := []string{opReg("bool", "neg", 0), opReg("int", "plus", 0), opReg("float", "half", 0),
@@ -673,6 +742,11 @@ func casesC15(g *Gen) []*Case {
 		opResp("home", d1), opResp("bad", d1), opResp("missing", nil), opResp("blog/post", d2),
 		opEvs("{{ who }}! @each(x in xs){{ x * 2 }}@end", d1), opEvs("{{ 1 + }}", nil), opEvs("{{ nosuch }}", nil), opEvs(`{{ [1, 2, 3, 4, 5].shuffle().len() }}{{ "a".echo(1) }}`, nil),
 		opEvf("files/f.tw", d1), opEvf("files/none.tw", nil), opStr("sh", nil),
+		// data that differ only in the numeric type of a value
+		opStr("num", gvMap("n", gvInt(1), "ns", gvList(gvInt(2), gvInt(3)))), opStr("num", gvMap("n", gvFloat(1), "ns", gvList(gvFloat(2), gvFloat(3)))),
+		opStr("num", gvMap("n", gvInt(1), "ns", gvList(gvInt(2), gvInt(3)))), opStr("num", gvMap("n", gvFloat(1), "ns", gvList(gvFloat(2), gvFloat(3)))),
+		// literals with every special character in every context, loops whose bodies branch
+		opStr("lits", d1), opStr("lits", d2), opStr("branchy", d1), opStr("branchy", d2), opStr("lits", d1), opStr("branchy", d1),
 	}
 	n := g.scale(24, 400)
 	for i := 0; i < n; i++ {
@@ -680,11 +754,26 @@ func casesC15(g *Gen) []*Case {
 		t.files["tpl/components/c.tw"] = "<c>{{ t }}@slot</c>"
 		t.files["tpl/comp.tw"] = `@each(x in xs)@component("~c", {t: who})@slot {{ x }}@end@end@end`
 		t.files["tpl/sh.tw"] = `{{ [1, 2, 3, 4, 5, 6, 7, 8].shuffle().len() }}`
+		t.files["tpl/num.tw"] = `@use("~l")@insert("b")@for(i = 0; i < 150; i++)@end<b>{{ n }}</b>{{ n / 2 }} @each(v in ns){{ v }},@end@end`
+		t.files["tpl/components/lit.tw"] = `[{{ t }}|@slot]`
+		t.files["tpl/lits.tw"] = `@use("~l")@insert("b"){{ "<b>&</b> 'q' \"dq\" <i>long literal text with & and < and > repeated & again</i>" }}` +
+			`@each(x in xs){{ "<" + "&'" }}@component("~lit", {t: "<t>&\"'"})@slot{{ "s<&>'" }}@end@end@end{{ "<raw>&".raw() }}{{ true ? "<y>'" : "<n>" }}{{ {k: "<v>&"}.k }}{{ ["<e>'"][0] }}@end`
+		t.files["tpl/branchy.tw"] = `@use("~l")@insert("b")@each(x in xs)@if(x == 2)<b>{{ x }}</b>@else e@end@for(j = 0; j < 0; j++)<i>{{ j }}</i>@else n@end` +
+			`@if(x == 9)a{{ x }}b{{ x }}c@elseif(x == 1)one@else z@end@end@for(i = 0; i < 3; i++)@if(i == 1)<u>{{ i }}</u>@else o@end@each(q in [])<q>{{ q }}</q>@else m@end@end@end`
 		cfg := []string{opNew("tpl", ".tw", "", false), opNew("tpl", ".tw", "err", false), opNew("tpl", ".tw", "", true)}[i%3]
 		k := 3 + g.n(6)
 		var work []string
 		for j := 0; j < k; j++ {
 			work = append(work, pool[g.n(len(pool))])
+		}
+		np := len(pool)
+		switch i % 6 {
+		case 1: // the same page with data that differ in the numeric type only
+			work = []string{pool[np-10], pool[np-9]}
+		case 3: // first renders of pages made of literals and of branching loops overlap
+			work = []string{pool[np-6], pool[np-5], pool[np-4], pool[np-3]}
+		case 5:
+			work = append(work, pool[np-10], pool[np-4], pool[np-9], pool[np-6])
 		}
 		G := []int{2, 4, 8, 16}[i%4]
 		procs := []int{1, 2, 16}[i%3]
